@@ -38,8 +38,21 @@ pub enum Who {
     EvmType,
 }
 
+/// the live miner of the fixture: sectors in a mutable deadline (`d_far`) and in the open one (`d_open`)
+#[derive(Clone, Debug, Default)]
+pub struct Live {
+    pub d_far: u64,
+    pub d_open: u64,
+    pub far_sectors: Vec<u64>,
+    pub faulty: u64,
+    pub precommitted: u64,
+    pub expiration: i64,
+    pub open_challenge: i64,
+}
+
 pub struct Fix {
     pub v: Mvm,
+    pub live: Live,
     /// named actors of the fixture world (caller classes and targets)
     pub who: BTreeMap<&'static str, Address>,
     pub deal_id: u64,
@@ -55,10 +68,10 @@ fn ser<T: serde::Serialize>(t: &T) -> Option<IpldBlock> {
 }
 
 pub fn fixture(variant: u64) -> Fix {
-    let mut policy = Policy::default();
-    policy.minimum_consensus_power = BigInt::from(1u64 << 30);
+    let policy = crate::minerops::miner_policy(1u64 << 30);
     let v = genesis(policy);
     install_sig_scheme(&v);
+    v.mut_primitives().override_compute_unsealed_sector_cid(crate::minerops::fake_unsealed_cid_pub);
     v.set_epoch(100 + (variant as i64) * 977);
     let accts = make_accounts(&v, 16, 11_000 + variant, &fil(10_000_000));
     let secp: Vec<Address> = accts.iter().cloned().enumerate().filter(|(i, _)| i % 2 == 0).map(|x| x.1).collect();
@@ -147,12 +160,46 @@ pub fn fixture(variant: u64) -> Fix {
     call0(&v, &ea, &secp[3], &TokenAmount::zero(), METHOD_SEND); // placeholder -> ethaccount
     who.insert("ethaccount", ea);
     who.insert("account", secp[3]);
+    // ---- a live 2 KiB miner with the same role holders: sectors in two deadlines, one faulty sector,
+    // one pre-committed sector past the challenge delay; the clock stands inside `d_open`
+    let lm = create_miner(&v, &owner, &worker, RegisteredPoStProof::StackedDRGWindow2KiBV1P1);
+    who.insert("lminer", lm);
+    call0(&v, &owner, &lm, &fil(100_000), METHOD_SEND);
+    assert!(call(&v, &owner, &lm, &TokenAmount::zero(), MinerM::ChangeWorkerAddress as u64, Some(&fil_actor_miner::ChangeWorkerAddressParams { new_worker: worker, new_control_addresses: vec![control] })).0.code.is_success());
+    let mn = crate::minerops::Mn { addr: lm, owner, worker, post_proof: RegisteredPoStProof::StackedDRGWindow2KiBV1P1, seal_proof: fvm_shared::sector::RegisteredSealProof::StackedDRG2KiBV1P1, ni_proof: fvm_shared::sector::RegisteredSealProof::StackedDRG2KiBV1P2_Feat_NiPoRep, next_sector: 0, creation_deposit: TokenAmount::zero(), whale: false, auto_post: false };
+    let ms0 = crate::miner::snap_miner(&v, &lm).expect("live miner");
+    let pol = v.policy.clone();
+    let dl_now = crate::minerops::deadline_at(&pol, ms0.proving_period_start, v.epoch());
+    let d_far = (dl_now.index + 8) % 48;
+    let d_open = (d_far + 32) % 48;
+    let exp = v.epoch() + 300 * market::DAY;
+    assert!(crate::minerops::precommit(&v, &mn, &worker, &[900], v.epoch() + 250 * market::DAY, None).0.code.is_success());
+    let (r, _) = crate::minerops::prove_commit_ni(&v, &mn, &worker, &[10, 11, 12, 13], exp, d_far);
+    assert!(r.code.is_success(), "NI commit (far): {} {}", r.code, r.message);
+    let (r, _) = crate::minerops::prove_commit_ni(&v, &mn, &worker, &[20, 21], exp, d_open);
+    assert!(r.code.is_success(), "NI commit (open): {} {}", r.code, r.message);
+    // travel (with cron) into d_far, prove its sectors, then on into d_open (32 deadlines later: d_far is
+    // past its dispute window and mutable again)
+    let t_far = dl_now.period_start + ((dl_now.index + 8) as i64) * pol.wpost_challenge_window + 5;
+    crate::market::advance(&v, t_far, false, &mut |_, _, _| {});
+    let msf = crate::miner::snap_miner(&v, &lm).expect("live miner");
+    let dl_far = crate::minerops::deadline_at(&pol, msf.proving_period_start, v.epoch());
+    assert_eq!(dl_far.index, d_far);
+    let (r, _) = crate::minerops::submit_post(&v, &mn, &worker, &dl_far, vec![(0, vec![]), (1, vec![])], true);
+    assert!(r.code.is_success(), "PoSt of the far deadline: {} {}", r.code, r.message);
+    crate::market::advance(&v, t_far + 32 * pol.wpost_challenge_window, false, &mut |_, _, _| {});
+    let (r, _) = crate::minerops::declare_faults(&v, &mn, &worker, &[(d_far, 0, vec![11])]);
+    assert!(r.code.is_success(), "declare fault: {} {}", r.code, r.message);
+    let ms1 = crate::miner::snap_miner(&v, &lm).expect("live miner");
+    let dl_open = crate::minerops::deadline_at(&pol, ms1.proving_period_start, v.epoch());
+    assert_eq!(dl_open.index, d_open);
+    let live = Live { d_far, d_open, far_sectors: vec![10, 11, 12, 13], faulty: 11, precommitted: 900, expiration: exp, open_challenge: dl_open.challenge };
     // every caller class can pay for value-carrying cells
     for n in CALLERS {
         call0(&v, &secp[3], &who[n], &fil(50), METHOD_SEND);
     }
     v.invs.borrow_mut().clear();
-    Fix { v, who, deal_id, claim_id, alloc_id, txn_id, txn3, keys }
+    Fix { v, live, who, deal_id, claim_id, alloc_id, txn_id, txn3, keys }
 }
 
 pub struct Cell {
@@ -287,16 +334,67 @@ pub fn spec() -> Vec<Cell> {
     c.push(cell!("miner", MinerM::GetBeneficiary, "GetBeneficiary", Who::Any, move |_, _| (zero(), None)));
     c.push(cell!("miner", MinerM::GetOwnerExported, "GetOwner", Who::Any, move |_, _| (zero(), None)));
     c.push(cell!("miner", MinerM::IsControllingAddressExported, "IsControllingAddress", Who::Any, move |f: &Fix, _| (zero(), ser(&fil_actor_miner::IsControllingAddressParam { address: f.who["worker"] }))));
-    c.push(cell!("miner", MinerM::SubmitWindowedPoSt, "SubmitWindowedPoSt", only(&["owner", "worker", "control"])));
-    c.push(cell!("miner", MinerM::ProveCommitSectors3, "ProveCommitSectors3", only(&["owner", "worker", "control"])));
-    c.push(cell!("miner", MinerM::TerminateSectors, "TerminateSectors", only(&["owner", "worker", "control"])));
-    c.push(cell!("miner", MinerM::DeclareFaults, "DeclareFaults", only(&["owner", "worker", "control"])));
-    c.push(cell!("miner", MinerM::DeclareFaultsRecovered, "DeclareFaultsRecovered", only(&["owner", "worker", "control"])));
-    c.push(cell!("miner", MinerM::ExtendSectorExpiration2, "ExtendSectorExpiration2", only(&["owner", "worker", "control"])));
-    c.push(cell!("miner", MinerM::CompactPartitions, "CompactPartitions", only(&["owner", "worker", "control"])));
     c.push(cell!("miner", MinerM::ProveReplicaUpdates3, "ProveReplicaUpdates3", only(&["owner", "worker", "control"])));
-    c.push(cell!("miner", MinerM::ProveCommitSectorsNI, "ProveCommitSectorsNI", only(&["owner", "worker", "control"])));
     c.push(cell!("miner", 1, "Constructor", only(&["init"])));
+    // ---- the live miner (sectors, an open deadline, a faulty sector, a ready pre-commit)
+    let ctl = || only(&["owner", "worker", "control"]);
+    let bf1 = |x: u64| {
+        let mut b = BitField::new();
+        b.set(x);
+        b
+    };
+    c.push(cell!("lminer", MinerM::SubmitWindowedPoSt, "SubmitWindowedPoSt", ctl(), move |f: &Fix, _| {
+        let p = fil_actor_miner::SubmitWindowedPoStParams {
+            deadline: f.live.d_open,
+            partitions: vec![fil_actor_miner::PoStPartition { index: 0, skipped: BitField::new() }],
+            proofs: vec![fvm_shared::sector::PoStProof { post_proof: RegisteredPoStProof::StackedDRGWindow2KiBV1P1, proof_bytes: vec![1, 2, 3] }],
+            chain_commit_epoch: f.live.open_challenge.max(f.v.epoch() - 10).min(f.v.epoch() - 1),
+            chain_commit_rand: fvm_shared::randomness::Randomness(crate::mvm::TEST_VM_RAND_ARRAY.into()),
+        };
+        (zero(), ser(&p))
+    }));
+    c.push(cell!("lminer", MinerM::DeclareFaults, "DeclareFaults", ctl(), move |f: &Fix, _| (zero(), ser(&fil_actor_miner::DeclareFaultsParams { faults: vec![fil_actor_miner::FaultDeclaration { deadline: f.live.d_far, partition: 0, sectors: bf1(10) }] }))));
+    c.push(cell!("lminer", MinerM::DeclareFaultsRecovered, "DeclareFaultsRecovered", ctl(), move |f: &Fix, _| (zero(), ser(&fil_actor_miner::DeclareFaultsRecoveredParams { recoveries: vec![fil_actor_miner::RecoveryDeclaration { deadline: f.live.d_far, partition: 0, sectors: bf1(f.live.faulty) }] }))));
+    c.push(cell!("lminer", MinerM::TerminateSectors, "TerminateSectors", ctl(), move |f: &Fix, _| (zero(), ser(&fil_actor_miner::TerminateSectorsParams { terminations: vec![fil_actor_miner::TerminationDeclaration { deadline: f.live.d_far, partition: 1, sectors: bf1(12) }] }))));
+    c.push(cell!("lminer", MinerM::ExtendSectorExpiration2, "ExtendSectorExpiration2", ctl(), move |f: &Fix, _| (zero(), ser(&fil_actor_miner::ExtendSectorExpiration2Params { extensions: vec![fil_actor_miner::ExpirationExtension2 { deadline: f.live.d_far, partition: 1, sectors: bf1(13), sectors_with_claims: vec![], new_expiration: f.live.expiration + 20 * market::DAY }] }))));
+    c.push(cell!("lminer", MinerM::CompactPartitions, "CompactPartitions", ctl(), move |f: &Fix, _| (zero(), ser(&fil_actor_miner::CompactPartitionsParams { deadline: f.live.d_far, partitions: bf1(1) }))));
+    c.push(cell!("lminer", MinerM::ProveCommitSectors3, "ProveCommitSectors3", ctl(), move |f: &Fix, _| {
+        let p = fil_actor_miner::ProveCommitSectors3Params {
+            sector_activations: vec![fil_actor_miner::SectorActivationManifest { sector_number: f.live.precommitted, pieces: vec![] }],
+            sector_proofs: vec![RawBytes::new(vec![7u8; 4])],
+            aggregate_proof: RawBytes::default(),
+            aggregate_proof_type: None,
+            require_activation_success: true,
+            require_notification_success: false,
+        };
+        (zero(), ser(&p))
+    }));
+    c.push(cell!("lminer", MinerM::ProveCommitSectorsNI, "ProveCommitSectorsNI", ctl(), move |f: &Fix, _| {
+        let lm = f.who["lminer"];
+        let p = fil_actor_miner::ProveCommitSectorsNIParams {
+            sectors: vec![fil_actor_miner::SectorNIActivationInfo { sealing_number: 30, sealer_id: lm.id().unwrap(), sealed_cid: make_sealed_cid(b"c11-ni"), sector_number: 30, seal_rand_epoch: f.v.epoch() - 1, expiration: f.v.epoch() + 300 * market::DAY }],
+            aggregate_proof: RawBytes::new(vec![1u8; 1024]),
+            seal_proof_type: fvm_shared::sector::RegisteredSealProof::StackedDRG2KiBV1P2_Feat_NiPoRep,
+            aggregate_proof_type: fvm_shared::sector::RegisteredAggregateProof::SnarkPackV2,
+            proving_deadline: f.live.d_far,
+            require_activation_success: true,
+        };
+        (zero(), ser(&p))
+    }));
+    c.push(cell!("lminer", MinerM::ReportConsensusFault, "ReportConsensusFault", Who::Any));
+    c.push(cell!("lminer", MinerM::GetAvailableBalanceExported, "GetAvailableBalance", Who::Any, move |_, _| (zero(), None)));
+    c.push(cell!("lminer", MinerM::GetVestingFundsExported, "GetVestingFunds", Who::Any, move |_, _| (zero(), None)));
+    c.push(cell!("lminer", MinerM::GetSectorSizeExported, "GetSectorSize", Who::Any, move |_, _| (zero(), None)));
+    c.push(cell!("lminer", MinerM::ChangeBeneficiary, "ChangeBeneficiary(propose)", only(&["owner"]), move |f: &Fix, _| (zero(), ser(&fil_actor_miner::ChangeBeneficiaryParams { new_beneficiary: f.who["stranger"], new_quota: fil(5), new_expiration: f.v.epoch() + 1000 }))));
+    // ---- market / power rows that need a provider
+    c.push(cell!("market", Mk::PublishStorageDeals, "PublishStorageDeals", only(&["owner", "worker", "control"]), move |f: &Fix, _| {
+        let prop = make_proposal(77, f.who["client"], f.who["miner"], f.v.epoch() + 3000, 180 * market::DAY + 10, 12, "c11-second");
+        (zero(), ser(&fil_actor_market::PublishStorageDealsParams { deals: vec![signed(&f.keys, &prop, &f.who["client"])] }))
+    }));
+    c.push(cell!("power", Pw::CreateMiner, "CreateMiner", Who::Any, move |f: &Fix, caller: &Address| {
+        let p = fil_actor_power::CreateMinerParams { owner: f.who["stranger"], worker: f.who["worker"], window_post_proof_type: RegisteredPoStProof::StackedDRGWindow32GiBV1P1, peer: format!("peer-{caller}").into_bytes(), multiaddrs: vec![] };
+        (crate::world::create_miner_deposit(&f.v), ser(&p))
+    }));
     // ---- EVM / EAM / accounts
     c.push(cell!("evm", fil_actor_evm::Method::GetBytecode, "GetBytecode", Who::Any, move |_, _| (zero(), None)));
     c.push(cell!("evm", fil_actor_evm::Method::GetBytecodeHash, "GetBytecodeHash", Who::Any, move |_, _| (zero(), None)));
@@ -315,7 +413,7 @@ pub fn spec() -> Vec<Cell> {
 }
 
 pub const CALLERS: &[&str] = &[
-    "system", "init", "reward", "cron", "power", "market", "verifreg", "datacap", "eam", "rootmsig", "miner", "miner2", "owner", "worker", "control", "beneficiary",
+    "system", "init", "reward", "cron", "power", "market", "verifreg", "datacap", "eam", "rootmsig", "miner", "miner2", "lminer", "owner", "worker", "control", "beneficiary",
     "stranger", "signer1", "signer2", "signer3", "msig", "msig3", "othermsig", "payer", "payee", "paych", "verifier", "client", "evm", "ethaccount",
 ];
 
